@@ -52,6 +52,13 @@ pub fn draw_case(prop: &str, engine: &str, seed: u64, tier: &str) -> Case {
     if tier == "thorough" {
         c.extra = serde_json::json!({"thorough": true});
     }
+    if prop == "C12" {
+        // commit counts 0..6, one in four on a legacy-header file; small pages in quick
+        let n = r.below(7);
+        c.extra = serde_json::json!({"commits": n, "legacy": r.chance(1, 4), "thorough": tier == "thorough"});
+        c.pagesize = if tier == "thorough" { *r.pick(&[1024, 1024, 2048, 4096]) } else { 1024 };
+        c.strict = false;
+    }
     c
 }
 
@@ -99,6 +106,13 @@ fn tune(prop: &str, cfg: &mut GenCfg, seed: u64) {
             cfg.p_reopen = cfg.p_reopen.min(20);
             cfg.w_op[7] = cfg.w_op[7].max(3);
             cfg.bulk_len.1 = cfg.bulk_len.1.min(150);
+            cfg.p_ro = 0;
+        }
+        "C11" => {
+            cfg.txs = cfg.txs.clamp(2, 6);
+            cfg.p_reopen = cfg.p_reopen.min(20);
+            cfg.bulk_len.1 = cfg.bulk_len.1.min(100);
+            cfg.tx_len.1 = cfg.tx_len.1.min(20);
             cfg.p_ro = 0;
         }
         "C03" => {
@@ -160,6 +174,8 @@ pub fn execute(case: &Case) -> Verdict {
     match case.engine.as_str() {
         "seq" => exec_seq(case),
         "crash" => crate::crash::execute(case),
+        "fault" => crate::fault::execute(case),
+        "corrupt" => crate::corrupt::execute(case),
         other => Verdict { harness_error: Some(format!("unknown engine {}", other)), ..Default::default() },
     }
 }
